@@ -7,6 +7,7 @@
 //!                     interleaved with faults on the disk layer's value files
 //!   byte-budget-growth  histories of 10..=40 operations, mostly puts of 4..=400 bytes over <= 6
 //!                     keys, on [Memory(8 entries, 64/160/320 bytes), Disk]
+//!   large-values      fixed histories with values around the disk layer's 16 MiB read threshold
 //!   short-histories   every sequence of up to N operations from a 10-letter
 //!                     alphabet on one hot key (+2 filler keys), both layouts
 //! Oracle: model.rs (hard clauses H1..H6, latest-value clause L1).
@@ -441,6 +442,43 @@ fn main() {
         Section::pbt("byte-budget-growth", tier.pick(2500, 100_000), budget_case_s, move |c: &Case| supervised(c, &k3))
             .shards(16)
             .shrink_iters(1500),
+    );
+
+    // The disk layer reads files of 16 MiB and more through its own path
+    let k4 = known.clone();
+    ck.run(
+        Section::enumerate(
+            "large-values",
+            "values of 16 MiB - 1, 16 MiB, 16 MiB + 4321 and 17.5 MiB on [Memory(2), Disk] and [Memory(1), Memory(8), Disk], MD5 hooks: put_to_layer(k0, disk), get, get_from_layer(disk), get_with_validation(key of latest), promote(disk -> 0), get, put_with_validation(k1), remove k1's first-layer copy by two more puts, get_with_validation(k1)",
+            || {
+                const MIB: usize = 1024 * 1024;
+                let mut v = Vec::new();
+                for len in [16 * MIB - 1, 16 * MIB, 16 * MIB + 4321, 17 * MIB + MIB / 2] {
+                    for layout in [Layout::MemDisk { l0_max: 2 }, Layout::MemMemDisk { l0_max: 1 }] {
+                        let disk = layout.disk_layer() as u8;
+                        let ops = vec![
+                            Op::PutToLayer { k: 0, len, layer: disk },
+                            Op::Get { k: 0, probe: false },
+                            Op::GetFromLayer { k: 0, layer: disk },
+                            Op::GetValidated { k: 0, expect: Expect::Latest, damaged: None },
+                            Op::Promote { k: 0, from: disk, to: 0 },
+                            Op::Get { k: 0, probe: false },
+                            Op::PutValidated { k: 1, len, wrong: false },
+                            Op::Promote { k: 1, from: 0, to: disk },
+                            Op::Put { k: 2, len: 8 },
+                            Op::Put { k: 3, len: 8 },
+                            Op::Put { k: 4, len: 8 },
+                            Op::GetValidated { k: 1, expect: Expect::Latest, damaged: None },
+                            Op::GetFromLayer { k: 1, layer: disk },
+                        ];
+                        v.push(Case { layout, policy: Pol::Lru, strat: Strat::OnHit, hooks: Hooks::Md5, key_style: 0, pool: 5, content_seed: len as u64, ops, l0_bytes: None });
+                    }
+                }
+                Box::new(v.into_iter())
+            },
+            move |c: &Case| supervised(c, &k4),
+        )
+        .shards(8),
     );
 
     let k2 = known.clone();
